@@ -157,7 +157,7 @@ def run(tier, seed):
 
     SIGNAME = {signal.SIGINT: "int", signal.SIGTERM: "term", signal.SIGHUP: "hup"}
 
-    def add(name, text, bound_s, cleanups, sig=None, args=None, points=None, expect_fail=None, allow_left=False, body_err=None):
+    def add(name, text, bound_s, cleanups, sig=None, args=None, points=None, expect_fail=None, allow_left=False, body_err=None, env=None):
         """cleanups: 2 = every cleanup succeeds both times, 1 = the initial cleanups fail, None = not judged.
         body_err: does the play proper end with an error other than a cancellation (None = depends on the schedule).
         The expected number of cleanup runs and the expected result come from the life-cycle model (Model/Life.lean,
@@ -178,7 +178,7 @@ def run(tier, seed):
                     if expect_fail is not None and expect_fail != mf:
                         kdis.append({"life-model": ans, "scenario": name, "expected by the scenario": expect_fail})
                     want_fail = mf
-        faults.append({"name": name, "play": e2e.Play(text, args=args, timeout=bound_s + 12, sigspec=sig, points=points, keep=True),
+        faults.append({"name": name, "play": e2e.Play(text, args=args, timeout=bound_s + 12, sigspec=sig, points=points, keep=True, env=env),
                        "bound": bound_s, "cleanups": want_cl, "expect_fail": want_fail, "allow_left": allow_left})
 
     add("SIGINT during a long action", e2e_play(), 8, 2, sig=(1.0, signal.SIGINT), expect_fail=True)
@@ -198,6 +198,14 @@ def run(tier, seed):
     add("the only spotlight fails while the prompter still announces mood changes",
         e2e_play(scene_x="quick", spot="exit 1").replace("  scene z entails for a: quick", "  scene z entails for a: quick\n  scene z mood starts blue\n  scene x mood starts red"),
         10, 2, expect_fail=True, body_err=True, points="conduct.stage1=sleep:1s")
+    # a termination signal AFTER the play proper, while the results are being uploaded by a tool that hangs:
+    # "at any moment" includes that phase
+    slowbin = tempfile.mkdtemp(prefix="verif-c07-bin-")
+    with open(os.path.join(slowbin, "scp"), "w") as fscp:
+        fscp.write("#!/bin/bash\nsleep 9\n")
+    os.chmod(os.path.join(slowbin, "scp"), 0o755)
+    add("SIGTERM while a hanging upload tool runs", e2e_play(scene_x="quick"), 6, None, sig=(2.0, signal.SIGTERM), args=["--upload-url", "scp://host/results"],
+        env={"PATH": slowbin + ":" + os.environ["PATH"]}, allow_left=True)
     # the shell of an interrupted command dies at once on SIGHUP but a child in its process group ignores it
     add("spotlight whose child ignores SIGHUP (the shell itself does not)", e2e_play(scene_x="quick", spot="(trap '' HUP; exec sleep 100) & echo started; wait"), 10, 2)
     add("interrupted action whose child ignores SIGHUP", e2e_play(scene_x="hupkid", extra_actions="  :hupkid (trap '' HUP; exec sleep 100) & wait", second_line="bad"), 10, 2, expect_fail=True, body_err=True)
@@ -231,6 +239,7 @@ def run(tier, seed):
     else:
         add("final cleanup hangs (10 s time-out)", e2e_play(scene_x="quick", cleanup="if [ -e ran ]; then " + CLEAN + "; sleep 40; fi; touch ran; " + CLEAN), 16, None, expect_fail=True)
     results = e2e.run_many([f["play"] for f in faults], workers=8)
+    shutil.rmtree(slowbin, ignore_errors=True)
     time.sleep(0.4)
     for f, r in zip(faults, results):
         rep.case(("fault", f["name"]))
